@@ -157,6 +157,9 @@ func init() {
 			x.Quiesce(12 * time.Second)
 			checkNoLeak(x, "hashicorp/go-plugin.")
 		},
+		Conform: func() []explore.Params {
+			return []explore.Params{{"seq": "pA0"}, {"seq": "hD0"}, {"seq": "pA0,hD0"}}
+		},
 		Instances: func(tier string) []explore.Params {
 			var one []string
 			for _, s := range []string{"p", "h"} {
